@@ -184,4 +184,57 @@ def typedInto (c : Codec) (k : Kind) (old : V) (j : Json) : V :=
   | .ok v => v
   | _ => old
 
+/-! ### the documented JSON hooks (`geojson.CustomJSONMarshaler` / `CustomJSONUnmarshaler`)
+
+`geojson/json.go`: every JSON (un)marshal inside the package goes through `marshalJSON` /
+`unmarshalJSON`, which call the hook when it is set and encoding/json otherwise.  With a hook that
+itself hands over to encoding/json the NESTED values come back to the package's methods, so the hook
+is called once per method invocation that reaches a `marshalJSON` / `unmarshalJSON` site.  The
+functions below count those sites for a value; the documents are the ones of `geomMemberN`. -/
+
+mutual
+/-- `NewGeometry(v).MarshalJSON()` (also as a member of a feature / of "geometries"): the `null`
+    short cut returns before `marshalJSON`; otherwise one call for this geometry and, through
+    encoding/json, the `MarshalJSON` of every member of `Geometries` -/
+def hookMG : NG → Nat
+  | .nilIface => 0
+  | .nilCollection => 0
+  | .collection [] => 0
+  | .collection (g :: gs) => 1 + (hookMG g + hookMGs gs)
+  | .point _ => 1
+  | .multiPoint _ => 1
+  | .lineString _ => 1
+  | .multiLineString _ => 1
+  | .ring _ => 1
+  | .polygon _ => 1
+  | .multiPolygon _ => 1
+  | .bound _ _ => 1
+def hookMGs : List NG → Nat
+  | [] => 0
+  | g :: gs => hookMG g + hookMGs gs
+end
+
+mutual
+/-- `(*Geometry).UnmarshalJSON` on the document `NewGeometry(v)` wrote, when it succeeds: one
+    `unmarshalJSON` for `jsonGeometry`, one for the coordinates — or, for a collection, the
+    `UnmarshalJSON` of every member (encoding/json calls it for each non-null element).  A `null`
+    document never reaches the method (0). -/
+def hookUG : NG → Nat
+  | .nilIface => 0
+  | .nilCollection => 0
+  | .collection [] => 0
+  | .collection (g :: gs) => 1 + (hookUG g + hookUGs gs)
+  | .point _ => 2
+  | .multiPoint _ => 2
+  | .lineString _ => 2
+  | .multiLineString _ => 2
+  | .ring _ => 2
+  | .polygon _ => 2
+  | .multiPolygon _ => 2
+  | .bound _ _ => 2
+def hookUGs : List NG → Nat
+  | [] => 0
+  | g :: gs => hookUG g + hookUGs gs
+end
+
 end Orb.GeoJSON
